@@ -51,6 +51,31 @@ IntText(n) == IF n < 0 THEN <<45>> \o NatText(0 - n) ELSE NatText(n)
 
 Mutating == {"append", "appendlist", "prepend", "prependlist", "insert", "insertrange", "delete", "deleterange", "fill", "clear", "sortref", "tappendtext", "tappendchar",
              "tprependtext", "tprependchar", "tinserttext", "tinsertchar", "tdelete", "tdeleterange", "tfill"}
+(* ---- numbers (Duden/Mathe, Zahlen, Statistik) and characters (Duden/Zeichen); Zahl = small integer ---- *)
+Max2(a, b) == IF a >= b THEN a ELSE b
+RECURSIVE Gcd(_, _)
+Gcd(a, b) == IF b = 0 THEN a ELSE Gcd(b, a % b)
+IsPrime(n) == n >= 2 /\ \A d \in 2..(n - 1) : n % d # 0
+RECURSIVE PrimeFactorsFrom(_, _)
+PrimeFactorsFrom(n, d) == IF n < 2 THEN <<>> ELSE IF n % d = 0 THEN <<d>> \o PrimeFactorsFrom(n \div d, d) ELSE PrimeFactorsFrom(n, d + 1)
+DivisorsDesc(n) == SetToSortSeq({d \in 1..n : n % d = 0}, LAMBDA x, y : x > y)
+RECURSIVE Fact(_)
+Fact(n) == IF n = 0 THEN 1 ELSE n * Fact(n - 1)
+MaxOfSeq(s) == CHOOSE x \in {s[i] : i \in 1..Len(s)} : \A j \in 1..Len(s) : s[j] <= x
+MinOfSeq(s) == CHOOSE x \in {s[i] : i \in 1..Len(s)} : \A j \in 1..Len(s) : s[j] >= x
+HexVal(c) == IF c >= 48 /\ c <= 57 THEN c - 48 ELSE IF c >= 65 /\ c <= 70 THEN c - 55 ELSE IF c >= 97 /\ c <= 102 THEN c - 87 ELSE 0 - 1
+RECURSIVE HexToNat(_, _)
+HexToNat(t, acc) == IF t = <<>> THEN acc ELSE HexToNat(Tail(t), acc * 16 + HexVal(Head(t)))
+HexDigit(d) == IF d < 10 THEN 48 + d ELSE 55 + d
+RECURSIVE NatToHex(_)
+NatToHex(n) == IF n < 16 THEN <<HexDigit(n)>> ELSE NatToHex(n \div 16) \o <<HexDigit(n % 16)>>
+\* Latin-1 only ("es gibt noch viel mehr": beyond 255 nothing is documented)
+IsUpperL1(c) == (c >= 65 /\ c <= 90) \/ (c >= 192 /\ c <= 214) \/ (c >= 216 /\ c <= 222)
+IsLowerL1(c) == (c >= 97 /\ c <= 122) \/ (c >= 223 /\ c <= 246) \/ (c >= 248 /\ c <= 255)
+IsLatin(c) == (c >= 65 /\ c <= 90) \/ (c >= 97 /\ c <= 122)
+IsDigitC(c) == c >= 48 /\ c <= 57
+IsGerman(c) == IsLatin(c) \/ c \in {196, 228, 214, 246, 220, 252, 223}
+
 RECURSIVE NonOverlapIdx(_, _, _)
 NonOverlapIdx(t, n, i) == IF i + Len(n) - 1 > Len(t) THEN <<>> ELSE IF OccursAt(t, n, i) THEN <<i>> \o NonOverlapIdx(t, n, i + Len(n)) ELSE NonOverlapIdx(t, n, i + 1)
 Apply(fn, a) ==
@@ -122,5 +147,40 @@ Apply(fn, a) ==
       [] fn = "hamming"      -> Def(IF Len(a[1]) # Len(a[2]) THEN 0 - 1 ELSE Hamming(a[1], a[2]), a)
       [] fn = "levenshtein"  -> Def(Lev(a[1], a[2], Len(a[1]), Len(a[2])), a)
       [] fn = "compare"      -> Def(CompareText(a[1], a[2]), a)          \* compared by sign
+      \* numbers
+      [] fn = "max2"         -> Def(Max2(a[1], a[2]), a)
+      [] fn = "max3"         -> Def(Max2(a[1], Max2(a[2], a[3])), a)
+      [] fn = "min2"         -> Def(Min2(a[1], a[2]), a)
+      [] fn = "min3"         -> Def(Min2(a[1], Min2(a[2], a[3])), a)
+      [] fn = "clamp"        -> IF a[2] <= a[3] THEN Def(IF a[1] < a[2] THEN a[2] ELSE IF a[1] > a[3] THEN a[3] ELSE a[1], a) ELSE Undef      \* (wert, min, max)
+      [] fn = "sign"         -> Def(Sign(a[1]), a)
+      [] fn = "gcd"          -> IF a[1] >= 0 /\ a[2] >= 0 THEN Def(Gcd(a[1], a[2]), a) ELSE Undef
+      [] fn = "lcm"          -> IF a[1] > 0 /\ a[2] > 0 THEN Def((a[1] * a[2]) \div Gcd(a[1], a[2]), a) ELSE Undef
+      [] fn \in {"divisible", "notdivisible"} -> IF a[2] > 0 /\ a[1] >= 0 THEN Def((a[1] % a[2] = 0) = (fn = "divisible"), a) ELSE Undef
+      [] fn = "primefactors" -> IF a[1] >= 1 THEN Def(PrimeFactorsFrom(a[1], 2), a) ELSE Undef
+      [] fn = "divisors"     -> IF a[1] >= 1 THEN Def(DivisorsDesc(a[1]), a) ELSE Undef
+      [] fn \in {"even", "noteven"} -> Def(((IF a[1] < 0 THEN 0 - a[1] ELSE a[1]) % 2 = 0) = (fn = "even"), a)
+      [] fn = "factorial"    -> IF a[1] >= 0 /\ a[1] <= 12 THEN Def(Fact(a[1]), a) ELSE Undef
+      [] fn = "maxlist"      -> IF a[1] # <<>> THEN Def(MaxOfSeq(a[1]), a) ELSE Undef
+      [] fn = "minlist"      -> IF a[1] # <<>> THEN Def(MinOfSeq(a[1]), a) ELSE Undef
+      [] fn = "dozen"        -> Def(a[1] * 12, a)
+      [] fn = "hex2num"      -> IF Len(a[1]) <= 7 /\ \A i \in 1..Len(a[1]) : HexVal(a[1][i]) >= 0 THEN Def(HexToNat(a[1], 0), a) ELSE Undef
+      [] fn = "num2hex"      -> Def(IF a[1] < 0 THEN <<45>> \o NatToHex(0 - a[1]) ELSE NatToHex(a[1]), a)
+      \* characters (code points 0..255)
+      [] fn = "isspace"      -> Def(a[1] \in {32, 10, 9, 13}, a)
+      [] fn = "isblank"      -> Def(a[1] = 32, a)
+      [] fn = "isupper"      -> IF a[1] <= 255 THEN Def(IsUpperL1(a[1]), a) ELSE Undef
+      [] fn = "islower"      -> IF a[1] <= 255 THEN Def(IsLowerL1(a[1]), a) ELSE Undef
+      [] fn = "isdigit"      -> Def(IsDigitC(a[1]), a)
+      [] fn = "iscntrl"      -> Def(a[1] >= 0 /\ a[1] <= 31, a)
+      [] fn = "islatin"      -> Def(IsLatin(a[1]), a)
+      [] fn = "islatinnum"   -> Def(IsLatin(a[1]) \/ IsDigitC(a[1]), a)
+      [] fn = "isgerman"     -> Def(IsGerman(a[1]), a)
+      [] fn = "isgermannum"  -> Def(IsGerman(a[1]) \/ IsDigitC(a[1]), a)
+      [] fn = "toupper"      -> Def(IF IsGerman(a[1]) /\ IsLowerL1(a[1]) /\ a[1] # 223 THEN a[1] - 32 ELSE a[1], a)
+      [] fn = "tolower"      -> Def(IF IsGerman(a[1]) /\ IsUpperL1(a[1]) THEN a[1] + 32 ELSE a[1], a)
+      [] fn = "asciichar"    -> IF a[1] >= 1 /\ a[1] <= 127 THEN Def(a[1], a) ELSE Undef
+      [] fn = "asciigt"      -> Def(a[1] > a[2], a)
+      [] fn = "asciilt"      -> Def(a[1] < a[2], a)
       [] OTHER               -> Undef
 =============================================================================
